@@ -42,9 +42,10 @@ const (
 	KWgWait
 	KCondWait
 	KExit
+	KArrive
 )
 
-var kindNames = [...]string{"start", "resume", "lock", "rlock", "send", "recv", "select", "close", "atomic", "read", "write", "connclose", "semacq", "semrel", "idle", "yield", "wgwait", "condwait", "exit"}
+var kindNames = [...]string{"start", "resume", "lock", "rlock", "send", "recv", "select", "close", "atomic", "read", "write", "connclose", "semacq", "semrel", "idle", "yield", "wgwait", "condwait", "exit", "arrive"}
 
 func (k Kind) String() string { return kindNames[k] }
 
@@ -91,6 +92,7 @@ type op struct {
 	val  any
 	sel  *Sel
 	st   *stream
+	st2  *stream
 	sem  *Sem
 	wg   *WGState
 	obj  int
@@ -224,6 +226,8 @@ type Exec struct {
 	arrSeq  int64
 	prefix  []int
 	Choices []Choice
+	Keys    [][2]uint64 // fingerprint of the partial order of everything executed before each recorded choice
+	keyed   bool
 	window  bool
 	steps   int
 	horizon int
@@ -268,6 +272,9 @@ func Seq() int64 {
 		return 0
 	}
 	ex.seq++
+	if ex.cur != nil {
+		ex.note(ex.cur, KYield, -2) // the order of stamped observations is part of the state
+	}
 	return ex.seq
 }
 
@@ -329,6 +336,28 @@ func (e *Exec) note(g *G, k Kind, obj int) {
 	}
 }
 
+// stateKey fingerprints the state at a choice point: the per-object operation
+// orders so far (a Mazurkiewicz trace: two prefixes with the same orders have
+// performed the same computation, provided goroutines communicate only through
+// the operations the scheduler sees), who holds the baton and what is being chosen.
+func (e *Exec) stateKey(kind ChoiceKind, n int) [2]uint64 {
+	var a, b uint64
+	for o, h := range e.ohash {
+		x := (h ^ uint64(o)*0xD6E8FEB86659FD93) * 0xFF51AFD7ED558CCD
+		x ^= x >> 33
+		a += x
+		y := (h*0x9E3779B97F4A7C15 ^ uint64(o+7)*0xC2B2AE3D27D4EB4F) * 0x165667B19E3779F9
+		y ^= y >> 29
+		b += y
+	}
+	cur := 0
+	if e.cur != nil {
+		cur = e.cur.id + 1
+	}
+	t := uint64(cur)<<40 | uint64(kind)<<32 | uint64(n)
+	return [2]uint64{a ^ t*0x9E3779B97F4A7C15, b + t}
+}
+
 // Hash is a fingerprint of the execution's per-object operation orders (a
 // Mazurkiewicz-trace style hash: executions that differ only in the order of
 // operations on different objects get the same value).
@@ -357,6 +386,7 @@ func Go(site string, f func()) {
 	g.arr = e.arrSeq
 	e.arrSeq++
 	e.gs = append(e.gs, g)
+	e.note(e.cur, KStart, -3) // goroutine ids follow the global spawn order: it is part of the state
 	if e.hb != nil {
 		e.hb.fork(e.cur.id, g.id)
 	}
@@ -561,6 +591,9 @@ func (e *Exec) pick(kind ChoiceKind, n int, curEnabled bool) int {
 		}
 	}
 	e.Choices = append(e.Choices, Choice{Kind: kind, N: n, Picked: p, CurEnabled: curEnabled})
+	if e.keyed {
+		e.Keys = append(e.Keys, e.stateKey(kind, n))
+	}
 	return p
 }
 
@@ -710,6 +743,9 @@ func (e *Exec) apply(g *G) {
 		e.note(g, KSemRel, o.sem.id)
 	case KRead, KWrite, KConnClose:
 		e.note(g, o.kind, o.st.id)
+		if o.st2 != nil {
+			e.note(g, o.kind, o.st2.id) // closing an end changes the state of both directions
+		}
 	case KAtomic:
 		e.note(g, KAtomic, o.obj)
 	case KWgWait:
@@ -741,6 +777,20 @@ func (e *Exec) point(o op) *G {
 	me.pend = o
 	me.arr = e.arrSeq
 	e.arrSeq++
+	// On an unbuffered channel the partner of a rendezvous is the longest-waiting
+	// goroutine, so the order of arrival is part of the channel's state.
+	switch o.kind {
+	case KSend, KRecv:
+		if o.ch != nil && o.ch.cap == 0 {
+			e.note(me, KArrive, o.ch.id)
+		}
+	case KSelect:
+		for i := range o.sel.cases {
+			if c := o.sel.cases[i].ch; c != nil && c.cap == 0 {
+				e.note(me, KArrive, c.id)
+			}
+		}
+	}
 	if !e.window {
 		// fast path: default policy keeps the running goroutine if it can go on
 		if e.canFire(me) && o.kind != KIdle {
@@ -808,6 +858,7 @@ func (e *Exec) exitDispatch(me *G) {
 type Options struct {
 	Horizon int
 	Trace   bool
+	Keys    bool // record a state key at every choice point (for state-key pruning)
 }
 
 // Run executes body under the scheduler following prefix, then the default policy.
@@ -821,6 +872,7 @@ func Run(prefix []int, body func(), opt Options) *Exec {
 		e.horizon = 2000000
 	}
 	e.tracing = opt.Trace
+	e.keyed = opt.Keys
 	epochCounter++
 	e.epoch = epochCounter
 	ex = e
